@@ -355,19 +355,39 @@ class ModelCompiler:
                             extracted_model.cells[column] = copy.deepcopy(
                                 model.cells[column])
 
-        terms_to_copy = []
-        for addr, cell in extracted_model.cells.items():
-            if cell.formula is not None:
-                for term in cell.formula.terms:
-                    if (term in extracted_model.cells
-                            and cell.formula != model.cells[addr].formula):
-                        cell.formula = copy.deepcopy(model.cells[addr].formula)
-
-                    elif term not in extracted_model.cells:
-                        terms_to_copy.append(term)
-
-        for term in terms_to_copy:
-            extracted_model.cells[term] = copy.deepcopy(model.cells[term])
+        # Copy everything the extracted cells depend on, directly or
+        # transitively, through cell references, ranges and defined names.
+        todo = list(extracted_model.cells)
+        while todo:
+            cell = extracted_model.cells[todo.pop()]
+            if cell.formula is None:
+                continue
+            for term in cell.formula.terms:
+                name = term.split('!')[-1]
+                targets = []
+                if name in model.defined_names:
+                    defn = model.defined_names[name]
+                    extracted_model.defined_names.setdefault(
+                        name, copy.deepcopy(defn))
+                    if isinstance(defn, xltypes.XLRange):
+                        term = getattr(defn, 'address_str', term)
+                    else:
+                        targets = [defn.address]
+                if term in model.ranges:
+                    extracted_model.ranges.setdefault(
+                        term, copy.deepcopy(model.ranges[term]))
+                    targets = [
+                        address
+                        for row in model.ranges[term].cells
+                        for address in row]
+                elif term in model.cells:
+                    targets = [term]
+                for address in targets:
+                    if (address in model.cells
+                            and address not in extracted_model.cells):
+                        extracted_model.cells[address] = copy.deepcopy(
+                            model.cells[address])
+                        todo.append(address)
 
         extracted_model.build_code()
 
